@@ -298,3 +298,120 @@ func TestVF_C01Session(t *testing.T) {
 		return msg
 	})
 }
+
+// ---------------------------------------------------------------------------------
+// C01: more files in one transfer than the process may hold open at once.
+// (a) real tsz / trz children under a low RLIMIT_NOFILE (soft and hard) must complete; (b) a descriptor census on the
+// pair engine: descriptors in use must not grow with the number of files already transferred.
+
+func TestVF_C01ManyFiles(t *testing.T) {
+	c := vfNewCollector("C01", "TestVF_C01ManyFiles")
+	defer vfFlushAll()
+	if vfReplayOnly() {
+		return
+	}
+	shard, shards := vfShard()
+	job := 0
+	for _, upload := range []bool{false, true} {
+		for _, mode := range []struct {
+			proto     int
+			overwrite bool
+			dir       bool
+		}{{2, false, false}, {3, true, true}, {4, false, true}, {4, true, true}} {
+			for _, engine := range []string{"census", "rlimit"} {
+				job++
+				if job%shards != shard {
+					continue
+				}
+				cs := map[string]any{"upload": upload, "protocol": mode.proto, "overwrite": mode.overwrite, "directory": mode.dir, "engine": engine, "files": 180}
+				msg := vfGuard(func() string { return vfManyFiles(upload, mode.proto, mode.overwrite, mode.dir, engine, 180) })
+				c.eval(cs, true, "manyfiles_"+engine)
+				if msg != "" {
+					c.violation("manyfiles", cs, msg)
+					t.Errorf("%v: %s", cs, msg)
+				}
+			}
+		}
+	}
+}
+
+func vfManyFiles(upload bool, proto int, overwrite, dirMode bool, engine string, n int) string {
+	base, err := os.MkdirTemp("", "vfmany")
+	if err != nil {
+		return "mkdtemp: " + err.Error()
+	}
+	defer os.RemoveAll(base)
+	src := filepath.Join(base, "src")
+	dest := filepath.Join(base, "dest")
+	os.MkdirAll(dest, 0755)
+	var paths []string
+	if dirMode {
+		os.MkdirAll(filepath.Join(src, "many"), 0755)
+		for i := 0; i < n; i++ {
+			os.WriteFile(filepath.Join(src, "many", fmt.Sprintf("f%04d", i)), vfContent(vfKindText, uint64(i+1), int64(10+i%50)), 0644)
+		}
+		paths = []string{filepath.Join(src, "many")}
+	} else {
+		os.MkdirAll(src, 0755)
+		for i := 0; i < n; i++ {
+			p := filepath.Join(src, fmt.Sprintf("f%04d", i))
+			os.WriteFile(p, vfContent(vfKindText, uint64(i+1), int64(10+i%50)), 0644)
+			paths = append(paths, p)
+		}
+	}
+	cfg := vfPairCfg{Upload: upload, Protocol: proto, Overwrite: overwrite, Directory: dirMode, Timeout: 20}
+	verify := func() string {
+		if dirMode {
+			return vfCompareSubtree(src, "many", dest, "many")
+		}
+		for i := 0; i < n; i++ {
+			if m := vfCompareSubtree(src, fmt.Sprintf("f%04d", i), dest, fmt.Sprintf("f%04d", i)); m != "" {
+				return m
+			}
+		}
+		return ""
+	}
+	if engine == "census" {
+		r := vfNewPair(cfg)
+		baseFD := vfCountFDs()
+		maxFD, names := 0, 0
+		sender := r.c2s
+		if !upload {
+			sender = r.s2c
+		}
+		sender.onMsg = func(m vfMsg, before bool) {
+			if m.Typ == "NAME" && !before {
+				names++
+				if d := vfCountFDs() - baseFD; d > maxFD {
+					maxFD = d
+				}
+			}
+		}
+		r.run(paths, dest, 120*time.Second)
+		if r.hung || r.clientErr != nil || r.serverErr != nil {
+			return "fault-free transfer failed: " + r.describe()
+		}
+		if m := verify(); m != "" {
+			return m
+		}
+		if maxFD > 12 {
+			return fmt.Sprintf("descriptors in use grew to %d above the baseline while %d files were transferred (they grow with the file count)", maxFD, n)
+		}
+		return ""
+	}
+	// real binary as the limited side: tsz sends (download) / trz receives (upload) under RLIMIT_NOFILE 80
+	sess := vfNewSession(vfSessOpts{})
+	defer sess.close()
+	old := vfBinWrap
+	vfBinWrap = []string{"prlimit", "--nofile=80:80"}
+	defer func() { vfBinWrap = old }()
+	run, err := vfStartTransfer(sess, cfg, paths, dest)
+	if err != nil {
+		return "cannot start: " + err.Error()
+	}
+	run.finish(120 * time.Second)
+	if !run.serverEnded || !run.serverSuccess() || !run.clientSuccess() {
+		return fmt.Sprintf("transfer of %d files with the server limited to 80 open files failed: %s", n, run.describe())
+	}
+	return verify()
+}
